@@ -482,7 +482,7 @@ func (w *world) applyHist(h hstate, label string, r *engine.Report) (hstate, str
 		hadCerts := len(c.CertificateBundles) > 0
 		var derr error
 		var conn interface{ Close() error }
-		rs, serr := harness.Serve(harness.ServerConfig{Storage: nh.st}, func(addr string) {
+		rs, serr := harness.Serve(harness.ServerConfig{Storage: nh.st, Unix: true}, func(addr string) {
 			cn, e := protocol.Dial(harness.Ctx, nh.nd, addr, w.nodeOpt...)
 			derr = e
 			if cn != nil {
